@@ -50,7 +50,7 @@ func (g *gen) validateStmt() {
 	}
 	g.feat("validator")
 	bit := g.bit()
-	k := g.intn(9, "valk")
+	k := g.intn(11, "valk")
 	// Recorded finding (validator-join-single-path): the condition of a flow is taken from ONE path between source and
 	// sink, the one through the false edge of each branch. When the false edge is the validated one (stored negation,
 	// err != nil), a sink behind the join is judged validated although the other branch reaches it too. With the
@@ -147,6 +147,32 @@ func (g *gen) validateStmt() {
 		g.indent--
 		g.emit("}")
 		g.feat("validator-stored-result")
+	case 9:
+		// tuple-returning validator, branch on its LAST result (the verdict); the other result is an unrelated bit
+		w := g.fresh()
+		g.emit("if %s, err := validateT(%d, %d, %s); err == nil {", w, bit, g.bit(), v.name)
+		g.indent++
+		g.emit("_ = %s", w)
+		g.sinkOf(v.name)
+		g.block(1 + g.intn(2, "valn"))
+		g.indent--
+		g.emit("}")
+		g.feat("validator-tuple")
+	case 10:
+		// tuple-returning validator, branch on a result that is NOT the verdict: nothing is validated
+		w := g.fresh()
+		g.emit("%s, _ := validateT(%d, %d, %s)", w, bit, g.bit(), v.name)
+		if g.chance(50, "valtneg") {
+			g.emit("if !%s {", w)
+		} else {
+			g.emit("if %s {", w)
+		}
+		g.indent++
+		g.sinkOf(v.name)
+		g.block(1 + g.intn(2, "valn"))
+		g.indent--
+		g.emit("}")
+		g.feat("validator-tuple-nonlast")
 	case 4:
 		g.emit("if err := validateE(%d, %s); err == nil {", bit, v.name)
 		g.indent++
@@ -163,6 +189,17 @@ func (g *gen) validateStmt() {
 		g.emit("}")
 		g.feat("validator-other-value")
 	}
+}
+
+// sinkOf emits a sink of the named string variable on its own line.
+func (g *gen) sinkOf(name string) {
+	line := g.nextLine()
+	g.prog.Sinks[line] = "sink2"
+	g.prog.SinkFunc[line] = g.curName
+	if sl, ok := g.directSrc[name]; ok {
+		g.prog.Direct[[2]int{sl, line}] = true
+	}
+	g.emit("sink2(%d, %s)", line, name)
 }
 
 // WildDecls are extra declarations of the "wild" profile (C07): unsafe, recursive types, mutual recursion, a function
@@ -702,6 +739,13 @@ func validateE(bit int, x string) error {
 	return verr{}
 }
 
+func validateT(bit int, wbit int, x string) (bool, error) {
+	if opaque[bit&15] {
+		return opaque[wbit&15], nil
+	}
+	return opaque[wbit&15], verr{}
+}
+
 func gstart() {}
 
 func gdone() {}
@@ -770,6 +814,14 @@ func validateE(bit int, x string) error {
 		return nil
 	}
 	return verr{}
+}
+
+func validateT(bit int, wbit int, x string) (bool, error) {
+	w := rt.Cond(wbit)
+	if rt.Validate(bit, x) {
+		return w, nil
+	}
+	return w, verr{}
 }
 
 func gstart() { rt.GStart() }
